@@ -154,7 +154,7 @@ CHECKS = {
     "C19": (
         "property-based differential testing (proptest): sample counts and per-sample speaker levels against the reference machine's timestamped ULA writes",
         "exploration",
-        "Generated speaker-toggling programs at rates 8000-384000, volumes, enable combinations and drain behaviours: cumulative sample count must be frames x floor(rate/50); with the beeper alone every sample must equal the level of a speaker/MIC state current within one sample period of its frame time (levels measured on a calibration machine, states and times from the reference machine); monotone in EAR then MIC, left = right, linear in volume, volume 0 silent, finite; undrained queues stay below two frames. The per-frame count is bounded by the overshoot of the frame-crossing instruction; in a third of the cases the host re-asserts its settings mid-run.",
+        "Generated speaker-toggling programs at rates 8000-384000, volumes, enable combinations and drain behaviours: cumulative sample count must be frames x floor(rate/50); with the beeper alone every sample must equal the level of a speaker/MIC state current within one sample period of its frame time (levels measured on a calibration machine, states and times from the reference machine); monotone in EAR then MIC, left = right, linear in volume, volume 0 silent, finite; undrained queues stay below two frames. The per-frame count is exact; in a third of the cases the host re-asserts its settings mid-run.",
         REF,
         "DESIGN.md section 5 (C19)",
         "E2 reference machine + emulator",
